@@ -82,6 +82,17 @@
       `log::…!` call, except that the translatable operands are still evaluated (so their panics are kept, e.g. the
       `Duration` subtraction in `(now - sent_at).as_secs_f64()`); every other read of an ignored field is rejected by
       the translator, so the translated state provably does not depend on them;
+      the methods of the ignored fields themselves (`ConnectionStats::{update, sent_packets, received_packet,
+      acked_packet}`) are NOT translated: they are assumed not to panic — their only panic sources are overflows of
+      `u64` packet / byte counters and the subtraction `current_time - sent_at` in `acked_packet`, which the kept rtt
+      statement of `process_packet` repeats (so that panic IS modelled);
+    * `for v in hash_map.values_mut() { … }` is accepted only for the loops listed in the manifest
+      (HASHMAP_VALUES_MUT_OK, with the justification "each iteration touches only its own value") and only if the
+      translator finds that the body assigns nothing but (through) the loop variable and cannot leave early (no
+      `break` / `continue` / `return` / `?`): the rounds then commute, and the generated loop visits the values of the
+      key-sorted table front to back (which of several panicking rounds fires is the only order-dependent observation;
+      panic sites are not compared); `btree.range(r)` for a `Range<u64>` value is the key-ordered list of the bindings
+      with `r.start ≤ k < r.end` and panics when `r.start > r.end` (as std does);
     * a type parameter `I: Into<T>` is `T` and `x.into()` the identity on it (what every caller in the crates passes:
       `u8` channel ids, `Bytes` / `Vec<u8>` messages); a `Result` call whose result the caller inspects
       (`if let Err(e) = f(..)`, `match f(..) { Ok(..) => .., Err(..) => .. }`) is `Exec.attempt`: the `&mut` state the
@@ -455,6 +466,10 @@ def index {ε ρ : Type} (m : Map α) (k : Nat) (site : String) : Exec ε ρ α 
   match find? m k with
   | some v => .val v
   | none => .panic site
+/-- `BTreeMap::range(r)` for a `Range<u64>`: the bindings with `r.start ≤ k < r.end` in key order;
+    std panics ("range start is greater than range end in BTreeMap") when `r.start > r.end` -/
+def range {ε ρ : Type} (m : Map α) (r : Range) (site : String) : Exec ε ρ (List (Nat × α)) :=
+  if r.start > r.«end» then .panic site else .val (m.filter (fun kv => decide (r.start ≤ kv.1 ∧ kv.1 < r.«end»)))
 /-- `first_key_value()` / the binding `pop_first()` returns: the one with the smallest key -/
 def first? (m : Map α) : Option (Nat × α) := m.head?
 /-- the map after `pop_first()` -/
